@@ -3,8 +3,52 @@ package main
 import (
 	"fmt"
 	"go/ast"
+	"regexp"
 	"strings"
 )
+
+// g01Locals lists the identifiers a function body defines with := (assignments, if/for init, range),
+// in order of first definition.
+func g01Locals(body ast.Node) []string {
+	var names []string
+	seen := map[string]bool{}
+	add := func(e ast.Expr) {
+		if id, ok := e.(*ast.Ident); ok && id.Name != "_" && !seen[id.Name] {
+			seen[id.Name] = true
+			names = append(names, id.Name)
+		}
+	}
+	ast.Inspect(body, func(x ast.Node) bool {
+		switch s := x.(type) {
+		case *ast.AssignStmt:
+			if s.Tok.String() == ":=" {
+				for _, l := range s.Lhs {
+					add(l)
+				}
+			}
+		case *ast.RangeStmt:
+			if s.Tok.String() == ":=" {
+				if s.Key != nil {
+					add(s.Key)
+				}
+				if s.Value != nil {
+					add(s.Value)
+				}
+			}
+		}
+		return true
+	})
+	return names
+}
+
+// g01Canon renames the given local identifiers to L1, L2, ... in rendered source text, so that a
+// rename of a local variable does not change the shape the translator compares.
+func g01Canon(text string, locals []string) string {
+	for i, n := range locals {
+		text = regexp.MustCompile(`\b`+regexp.QuoteMeta(n)+`\b`).ReplaceAllString(text, fmt.Sprintf("L%d", i+1))
+	}
+	return text
+}
 
 // g01Pipeline: tables for C01 — hop-by-hop list, shapes of the hop-by-hop / forwarded /
 // framing modifiers, order of the inner modifier group in middlewareStack, AllowHTTP,
@@ -36,13 +80,13 @@ func g01Pipeline(repo string, w *Out) error {
 	if err != nil {
 		return err
 	}
-	src := f.Src(rh.Body)
+	src := g01Canon(f.Src(rh.Body), g01Locals(rh.Body))
 	for _, want := range []string{
-		`for _, vs := range header["Connection"] {`,
-		`for _, v := range strings.Split(vs, ",") {`,
-		`k := http.CanonicalHeaderKey(strings.TrimSpace(v))`,
-		`header.Del(k)`,
-		`for _, k := range hopByHopHeaders { header.Del(k) }`,
+		`for _, L1 := range header["Connection"] {`,
+		`for _, L2 := range strings.Split(L1, ",") {`,
+		`L3 := http.CanonicalHeaderKey(strings.TrimSpace(L2))`,
+		`header.Del(L3)`,
+		`for _, L3 := range hopByHopHeaders { header.Del(L3) }`,
 	} {
 		if !strings.Contains(src, want) {
 			return fmt.Errorf("removeHopByHopHeaders: expected %q in %q", want, src)
@@ -80,9 +124,11 @@ func g01Pipeline(repo string, w *Out) error {
 		return fmt.Errorf("NewForwardedModifier: func literal not found")
 	}
 	var st []string
+	fwdLocals := g01Locals(lit.Body)
 	for _, s := range lit.Body.List {
-		st = append(st, ff.Src(s))
+		st = append(st, g01Canon(ff.Src(s), fwdLocals))
 	}
+	norm := func(t string) string { return g01Canon(t, []string{"v", "xff", "err"}) }
 	wantF := []string{
 		`if req.Method == http.MethodConnect { return nil }`,
 		`if v := req.Header.Get("X-Forwarded-Proto"); v == "" { req.Header.Set("X-Forwarded-Proto", req.URL.Scheme) }`,
@@ -94,6 +140,9 @@ func g01Pipeline(repo string, w *Out) error {
 		`req.Header.Set("X-Forwarded-For", xff)`,
 		`return nil`,
 	}
+	for i := range wantF {
+		wantF[i] = norm(wantF[i])
+	}
 	if len(st) != len(wantF) {
 		return fmt.Errorf("NewForwardedModifier: %d statements, expected %d: %q", len(st), len(wantF), st)
 	}
@@ -101,10 +150,10 @@ func g01Pipeline(repo string, w *Out) error {
 	for i := range st {
 		if i == 6 {
 			switch st[i] {
-			case `if v := req.Header.Get("X-Forwarded-For"); v != "" { xff = v + ", " + xff }`:
+			case norm(`if v := req.Header.Get("X-Forwarded-For"); v != "" { xff = v + ", " + xff }`):
 				w.DefBool("xff_reads_all_lines", false)
-			case `if v := strings.Join(req.Header.Values("X-Forwarded-For"), ", "); v != "" { xff = v + ", " + xff }`,
-				`if v := strings.Join(req.Header["X-Forwarded-For"], ", "); v != "" { xff = v + ", " + xff }`:
+			case norm(`if v := strings.Join(req.Header.Values("X-Forwarded-For"), ", "); v != "" { xff = v + ", " + xff }`),
+				norm(`if v := strings.Join(req.Header["X-Forwarded-For"], ", "); v != "" { xff = v + ", " + xff }`):
 				w.DefBool("xff_reads_all_lines", true)
 			default:
 				return fmt.Errorf("NewForwardedModifier: X-Forwarded-For read %q is not a shape the model knows", st[i])
@@ -113,8 +162,8 @@ func g01Pipeline(repo string, w *Out) error {
 		}
 		if i >= 1 && i <= 3 {
 			// fill-in test: first field line (Header.Get) or all field lines (strings.Join(Header.Values, ""))
-			alt := strings.Replace(wantF[i], `v := req.Header.Get(`, `v := strings.Join(req.Header.Values(`, 1)
-			alt = strings.Replace(alt, `"); v == ""`, `"), ""); v == ""`, 1)
+			alt := strings.Replace(wantF[i], `L1 := req.Header.Get(`, `L1 := strings.Join(req.Header.Values(`, 1)
+			alt = strings.Replace(alt, `"); L1 == ""`, `"), ""); L1 == ""`, 1)
 			switch st[i] {
 			case wantF[i]:
 				fillShapes = append(fillShapes, false)
